@@ -129,10 +129,29 @@ def correspond(ctx):
                 violations.append(Violation("c11-grpc-" + profile, "history of %d ops through the gRPC client: `%s` answered `%s`, the inline client / specification answers `%s`"
                                             % (i - st, ops[i][:60], impl[i][:60], spec[i][:60]), rp))
                 break
+    # (c) uploads whose source fails (with different errors) or whose context is cancelled: the inline client
+    #     reports an error and the key keeps its value (C10_failed_write_no_trace, C10's inline faults); so must gRPC
+    rc, out = C.go_test("./internal/app", "TestVerifC10Grpc", {"VERIF_OUT": ctx.rd, "VERIF_TIER": ctx.tier}, timeout=3000)
+    fp = os.path.join(ctx.rd, "c10g")
+    nfault = 0
+    if rc != 0 or not os.path.exists(fp + ".stats.json"):
+        rp = C.write_replay("C11", "grpc-fault-run-failed", {"property": "C11", "kind": "impl-run-failed", "output": out[-6000:]})
+        violations.append(Violation("c11-grpc-fault-run-failed", "failed uploads through the gRPC client failed to run: " + out.strip().split("\n")[-1][:160], rp))
+    else:
+        for o, r in zip(C.read_lines(fp + ".ops"), C.read_lines(fp + ".impl")):
+            if not o:
+                continue
+            nfault += 1
+            if r != "err old":
+                rp = C.write_replay("C11", "grpc-failed-upload", {"property": "C11", "kind": "fault", "case": o, "grpc": r, "inline": "err old"})
+                violations.append(Violation("c11-grpc-failed-upload", "upload with fault `%s`: through the gRPC client the writer got `%s` and the key then read `%s`; the inline client reports an error and keeps the old value"
+                                            % (o, r.split()[0], " ".join(r.split()[1:])), rp))
+                break
+    total += nfault
     cov = {"evaluations": total, "distinct_nontrivial": hist + 256,
-           "rule": "(a) all 256 subsets of the 8 sentinels x 3 wrappings (errors.Join, %w chain, custom Is) + 11 bare gRPC codes; (b) histories of the C01 (contents across the 2048-byte chunk boundary, Set/SetReader/Create), C02 (all levels) and C13 (late use) generators executed through pkg/external against internal/app on 127.0.0.1, every answer compared with the specification (= the inline client's answers, which the same run also checks); non-trivial = histories + error subsets",
+           "rule": "(a) all 256 subsets of the 8 sentinels x 3 wrappings (errors.Join, %w chain, custom Is) + 11 bare gRPC codes; (b) histories of the C01 (contents across the 2048-byte chunk boundary, Set/SetReader/Create), C02 (all levels) and C13 (late use) generators executed through pkg/external against internal/app on 127.0.0.1, every answer compared with the specification (= the inline client's answers, which the same run also checks); non-trivial = histories + error subsets; (c) uploads whose source fails with one of four errors (a plain error, io.ErrUnexpectedEOF, an error wrapping io.EOF, io.ErrClosedPipe) or whose context is cancelled at every chunk boundary: error + old value, as inline",
            "traces_validated_against_impl": total, "samples": samples,
-           "summary": "%d error-mapping lines + %d histories through gRPC agree with the specification" % (stats.get("lines", 0), hist)}
+           "summary": "%d error-mapping lines + %d histories + %d failed uploads through gRPC agree with the specification" % (stats.get("lines", 0), hist, nfault)}
     return {"violations": violations, "coverage": cov}
 
 
